@@ -188,7 +188,8 @@ spec fn m(cs: Seq<SelectorComponent>, i: int, n: Handle) -> bool
             SelectorComponent::Class(c) => has_class(n, c@) && m(cs, i + 1, n),
             SelectorComponent::Hash(h) => has_id(n, h@) && m(cs, i + 1, n),
             SelectorComponent::Element(e) => elem_named(n, e@) && m(cs, i + 1, n),
-            SelectorComponent::Star => m(cs, i + 1, n),
+            // * : any element (not the document node)
+            SelectorComponent::Star => is_elem(n) && m(cs, i + 1, n),
             // A > B : B's parent matches A
             SelectorComponent::CombChild => par(n) matches Some(p) && m(cs, i + 1, p),
             // A B : some proper ancestor of B matches A
@@ -288,26 +289,24 @@ impl Selector {
                         let attrs = attrs.borrow();
                         assert(attrs@ == attrs_of(*node)); //@w
                         for attr in it: attrs.iter()
-                            invariant //@w[
-                                comps@.len() >= 1, comps@[0] == *comp, *comp == SelectorComponent::Class(*class), node_ok(*node), is_elem(*node),
-                                same_seq(it.seq(), attrs@), attrs@ == attrs_of(*node),
-                                forall|n: Handle| #[trigger] m(comps@.skip(1), 0, n) == m(comps@, 1, n),
-                                forall|i: int, j: int| 0 <= i < it.index@ && local_name(#[trigger] attrs@[i].name) == "class"@ && 0 <= j < ws_tokens(tendril_str(attrs@[i].value)).len() ==> #[trigger] ws_tokens(tendril_str(attrs@[i].value))[j] != class@,
-                            //@w]
+                            invariant //@w
+                                comps@.len() >= 1, comps@[0] == *comp, *comp == SelectorComponent::Class(*class), node_ok(*node), is_elem(*node), //@w
+                                same_seq(it.seq(), attrs@), attrs@ == attrs_of(*node), //@w
+                                forall|n: Handle| #[trigger] m(comps@.skip(1), 0, n) == m(comps@, 1, n), //@w
+                                forall|i: int, j: int| 0 <= i < it.index@ && local_name(#[trigger] attrs@[i].name) == "class"@ && 0 <= j < ws_tokens(tendril_str(attrs@[i].value)).len() ==> #[trigger] ws_tokens(tendril_str(attrs@[i].value))[j] != class@, //@w
                         {
                             if local_is(&attr.name, "class") {
                                 let toks_v = split_ws(&attr.value);
                                 let ghost ai = it.index@; //@w
                                 assert(*attr == attrs@[ai]); //@w
                                 for cls in it2: toks_v
-                                    invariant //@w[
-                                        comps@.len() >= 1, comps@[0] == *comp, *comp == SelectorComponent::Class(*class), node_ok(*node), is_elem(*node),
-                                        attrs@ == attrs_of(*node), 0 <= ai < attrs@.len(), *attr == attrs@[ai], local_name(attrs@[ai].name) == "class"@,
-                                        it2.seq() == toks_v@, toks_v@.len() == toks(*attr).len(),
-                                        forall|j: int| 0 <= j < toks_v@.len() ==> (#[trigger] toks_v@[j])@ == toks(*attr)[j],
-                                        forall|n: Handle| #[trigger] m(comps@.skip(1), 0, n) == m(comps@, 1, n),
-                                        forall|j: int| 0 <= j < it2.index@ ==> #[trigger] toks(*attr)[j] != class@,
-                                    //@w]
+                                    invariant //@w
+                                        comps@.len() >= 1, comps@[0] == *comp, *comp == SelectorComponent::Class(*class), node_ok(*node), is_elem(*node), //@w
+                                        attrs@ == attrs_of(*node), 0 <= ai < attrs@.len(), *attr == attrs@[ai], local_name(attrs@[ai].name) == "class"@, //@w
+                                        it2.seq() == toks_v@, toks_v@.len() == toks(*attr).len(), //@w
+                                        forall|j: int| 0 <= j < toks_v@.len() ==> (#[trigger] toks_v@[j])@ == toks(*attr)[j], //@w
+                                        forall|n: Handle| #[trigger] m(comps@.skip(1), 0, n) == m(comps@, 1, n), //@w
+                                        forall|j: int| 0 <= j < it2.index@ ==> #[trigger] toks(*attr)[j] != class@, //@w
                                 {
                                     if tok_eq(cls, class) {
                                         assert(toks(attrs_of(*node)[ai])[it2.index@] == class@); //@w
@@ -325,12 +324,11 @@ impl Selector {
                         let attrs = attrs.borrow();
                         assert(attrs@ == attrs_of(*node)); //@w
                         for attr in it: attrs.iter()
-                            invariant //@w[
-                                comps@.len() >= 1, comps@[0] == *comp, *comp == SelectorComponent::Hash(*hash), node_ok(*node), is_elem(*node),
-                                same_seq(it.seq(), attrs@), attrs@ == attrs_of(*node),
-                                forall|n: Handle| #[trigger] m(comps@.skip(1), 0, n) == m(comps@, 1, n),
-                                forall|i: int| 0 <= i < it.index@ ==> !(local_name(#[trigger] attrs@[i].name) == "id"@ && tendril_str(attrs@[i].value) == hash@),
-                            //@w]
+                            invariant //@w
+                                comps@.len() >= 1, comps@[0] == *comp, *comp == SelectorComponent::Hash(*hash), node_ok(*node), is_elem(*node), //@w
+                                same_seq(it.seq(), attrs@), attrs@ == attrs_of(*node), //@w
+                                forall|n: Handle| #[trigger] m(comps@.skip(1), 0, n) == m(comps@, 1, n), //@w
+                                forall|i: int| 0 <= i < it.index@ ==> !(local_name(#[trigger] attrs@[i].name) == "id"@ && tendril_str(attrs@[i].value) == hash@), //@w
                         {
                             if local_is(&attr.name, "id") && tendril_eq(&attr.value, hash) {
                                 assert(*attr == attrs_of(*node)[it.index@]); //@w
@@ -347,7 +345,12 @@ impl Selector {
                     }
                     _ => false,
                 },
-                SelectorComponent::Star => Self::do_matches(slice_tail(comps), node),
+                // The universal selector matches any element, but not the
+                // document node above the root element.
+                SelectorComponent::Star => match &node.data {
+                    Element { .. } => Self::do_matches(slice_tail(comps), node),
+                    _ => false,
+                },
                 SelectorComponent::CombChild => {
                     if let Some(parent) = node.get_parent() {
                         Self::do_matches(slice_tail(comps), &parent)
@@ -376,16 +379,15 @@ impl Selector {
                     proof { axiom_tree(*node); axiom_tree(parent); assert(kids_v@ == ks); assert(is_elem(*node)); } //@w
                     let ghost pos = choose|j: int| 0 <= j < ks.len() && node_id(#[trigger] ks[j]) == node_id(*node) && ks[j] == *node; //@w
                     for child in it3: kids_v.iter()
-                        invariant_except_break //@w[
-                            same_seq(it3.seq(), ks), ks == kids(parent), ks.len() < 0x7fff_ffff, scs == sel.components@,
-                            comps@.len() >= 1, comps@[0] == *comp, *comp == (SelectorComponent::NthChild { a: *a, b: *b, sel: *sel }), par(*node) == Some(parent), is_elem(*node),
-                            0 <= pos < ks.len() && node_id(ks[pos]) == node_id(*node) && ks[pos] == *node,
-                            forall|i: int, j: int| 0 <= i < j < ks.len() ==> node_id(#[trigger] ks[i]) != node_id(#[trigger] ks[j]),
-                            !found, it3.index@ <= pos,
-                            idx == cnt(scs, ks, it3.index@), 0 <= idx <= it3.index@,
-                        ensures
-                            found && is_elem(*node) && m(scs, 0, *node) && idx == cnt(scs, ks, pos + 1) && 1 <= idx <= ks.len(),
-                        //@w]
+                        invariant_except_break //@w
+                            same_seq(it3.seq(), ks), ks == kids(parent), ks.len() < 0x7fff_ffff, scs == sel.components@, //@w
+                            comps@.len() >= 1, comps@[0] == *comp, *comp == (SelectorComponent::NthChild { a: *a, b: *b, sel: *sel }), par(*node) == Some(parent), is_elem(*node), //@w
+                            0 <= pos < ks.len() && node_id(ks[pos]) == node_id(*node) && ks[pos] == *node, //@w
+                            forall|i: int, j: int| 0 <= i < j < ks.len() ==> node_id(#[trigger] ks[i]) != node_id(#[trigger] ks[j]), //@w
+                            !found, it3.index@ <= pos, //@w
+                            idx == cnt(scs, ks, it3.index@), 0 <= idx <= it3.index@, //@w
+                        ensures //@w
+                            found && is_elem(*node) && m(scs, 0, *node) && idx == cnt(scs, ks, pos + 1) && 1 <= idx <= ks.len(), //@w
                     {
                         let ghost j = it3.index@; //@w
                         assert(*child == ks[j]); //@w
@@ -406,14 +408,14 @@ impl Selector {
                         // The child wasn't found(?)
                         return false;
                     }
-                    proof { //@w[
-                        lemma_nth(*a as int, *b as int, idx as int);
-                        // the position of the node among its siblings is unique, so the rank in the CSS definition is idx
-                        assert forall|p2: int| 0 <= p2 < ks.len() && node_id(#[trigger] ks[p2]) == node_id(*node) implies p2 == pos by {}
-                        assert(m(comps@, 0, *node) == (nth_matches(*a as int, *b as int, idx as int) && m(comps@, 1, *node))) by {
-                            if nth_matches(*a as int, *b as int, idx as int) { assert(node_id(ks[pos]) == node_id(*node) && nth_matches(*a as int, *b as int, cnt(scs, ks, pos + 1))); }
-                        }
-                    } //@w]
+                    proof { //@w
+                        lemma_nth(*a as int, *b as int, idx as int); //@w
+                        // the position of the node among its siblings is unique, so the rank in the CSS definition is idx //@w
+                        assert forall|p2: int| 0 <= p2 < ks.len() && node_id(#[trigger] ks[p2]) == node_id(*node) implies p2 == pos by {} //@w
+                        assert(m(comps@, 0, *node) == (nth_matches(*a as int, *b as int, idx as int) && m(comps@, 1, *node))) by { //@w
+                            if nth_matches(*a as int, *b as int, idx as int) { assert(node_id(ks[pos]) == node_id(*node) && nth_matches(*a as int, *b as int, cnt(scs, ks, pos + 1))); } //@w
+                        } //@w
+                    } //@w
                     let ghost a0 = *a as int; //@w
                     /* The selector matches if idx == a*n + b, where
                      * n >= 0
